@@ -45,6 +45,8 @@ fn update_emissions_ix(s: &Scen, b: usize, signer: Pubkey, mint: Pubkey, funding
 }
 
 pub fn run(rng: &mut Rng, n: usize, rep: &mut Report) {
+    // the permissionless migrate_curve on frozen banks (shared with the C18 monitor; here only the freeze clause is judged)
+    crate::mon_c18::migrate_block(rng, (n / 40).max(6), rep, true);
     run_with(rng, n, rep, &mut None)
 }
 
